@@ -118,8 +118,8 @@ THEOREMS = [
         "psd_srs_env_is_max_over_cases psd_srs_case_scaling heap_run_is_run2 nested_envelope_is_recursive_extrema "
         "merge_lists_spec form_extreme_by_label form_extreme_row_is_first_best form_extreme_label_order "
         "expand_missing_rows_neutral form_extreme_event_order_values_independent form_extreme_refuses_repeated_labels "
-        "form_extreme_needs_percase_columns abscissa_none_first_counterexample cases_label_matches_column "
-        "split_pairs_cases_with_columns uf_reds_none_entries_counterexample uf_reds_none_entries_documented_partial "
+        "form_extreme_accepts_differing_rows abscissa_of_governing_event_mixed cases_label_matches_column "
+        "split_pairs_cases_with_columns uf_reds_none_entries_documented "
         "form_extreme_nested_by_label_values"
     ).split()
 ]
@@ -158,11 +158,9 @@ RULE = (
     "at least one non-rigid mode (apply_uf), an accepted event (recovery streams); distinct by the canonical input."
 )
 ASSUMPTIONS = [
-    "within one extrema history mm.ext_x is either always given or never (DR_Results always gives it)",
     "form_extreme over events that list different rows: the events carry no SRS (srs.ext is enveloped by position, "
-    "the label merge does not touch it); the by-label theorems ask that all events of a category have abscissae or none "
-    "has (the mixed case is modelled as the code has it and reported as a finding) and that every event but the first "
-    "has per-case columns (an add_maxmin event that lists other rows raises KeyError: also reported)",
+    "the label merge does not touch it); a table without ext_x is sent to the model with NaN abscissae (EvOk.nox: the "
+    "code never reads them)",
     "apply_uf: stiffness of every non-rigid-body mode is non-zero / k[ee] and k[rf, rf] are invertible; all calls sharing a "
     "save dict use the same sol, m, b, k, nrb, rfmodes; rfmodes index modes at or above nrb",
     "PSD recovery: every case has at least one non-zero force PSD (with all forces zero and allow_force_trimming the code "
@@ -179,22 +177,16 @@ PARTIAL = (
     "entering as matrices with k[e,e] * KeeInv = 1, k[r,r] * KrrInv = 1 (that lu_factor / lu_solve deliver such matrices is "
     "re-measured by the `gauss` variant, not proved); rfmodes below nrb or with repeated indices are outside the theorems "
     "(and outside what the routine documents); the store model of cla.extrema (Model/ExtremaHeap.lean) covers the two-column "
-    "branch (what form_extreme / merge / the recovery routines use); its agreement with the value model (heap_run_is_run2) "
-    "is proved for histories whose abscissae are always or never given, the mixed case is tied by the heap stream only; "
+    "branch (what form_extreme / merge / the recovery routines use); "
     "init_extreme_cat's copies (srs.ext deepcopy, new NaN arrays) are listed in the model header and "
     "covered by the oracle rule only; calc_stat_ext is proved per row over a field with an abstract square root; the SRS of "
     "the response PSD uses C03's vrs model with the oscillator frequencies on the analysis grid (no interpolation); "
     "solvepsd(use_apply_uf=True) is driven with vector modal data only; strip_hists / set_dr_order / "
-    "rptext-style reports are text and are not modelled; form_extreme by row label is proved for events that all have "
-    "abscissae or all have none (form_extreme_by_label), the mixed case is in the model (tied by the labform stream) but "
-    "no by-label statement holds for its abscissae (abscissa_none_first_counterexample); across NESTED levels the by-label "
+    "rptext-style reports are text and are not modelled; across NESTED levels the by-label "
     "envelope is tied level by level (every _calc_extreme call is compared with formCat on the implementation's own lower "
     "envelopes) and the composition is proved for the VALUES (form_extreme_nested_by_label_values), labels and abscissae "
     "at ties across levels only for equal rows (nested_envelope_is_recursive_extrema + envelope_of_parts); the SRS "
-    "envelope of events "
-    "that list different rows is outside the model; uf_reds_none_entries_documented_partial: the documented reset of "
-    "None entries of uf_reds to defaults is proved only where code and docstring coincide (no None entry, or no "
-    "defaults), uf_reds_none_entries_counterexample shows the difference; split() is modelled for ext / ext_x / cases "
+    "envelope of events that list different rows is outside the model; split() is modelled for ext / ext_x / cases "
     "(hist / psd / srs slabs are covered by the oracle rule only)"
 )
 MANIFEST = {
@@ -214,13 +206,21 @@ MANIFEST = {
                   "the row, row order = iterated merge, values independent of the event order and the same through nested levels, "
                   "missing rows never win, repeated labels refused); the case-label list names the per-case columns whatever the order of the calls and split() "
                   "pairs each label with its own column; tie by exact / numeric correspondence on the real "
-                  "code; measured only: that scipy's LU inverts the partitions, the vrs kernel (C03's model at 1e-9); three "
-                  "findings are reported by the oracle (abscissa copied from another event when the first has none, KeyError for "
-                  "add_maxmin events that list other rows, None entries of uf_reds reset to 1 instead of the defaults)",
+                  "code; measured only: that scipy's LU inverts the partitions, the vrs kernel (C03's model at 1e-9); the "
+                  "findings F56-F58 of this check (None entries of uf_reds, abscissa of another event, KeyError for add_maxmin "
+                  "events that list other rows) are repaired in /repo, model and theorems follow the repaired code (by-label "
+                  "envelope and store/value agreement for any mix of events with and without abscissae, the documented uf_reds "
+                  "defaults in full) and the oracle rules remain as regression guards",
     "technique": "Lean 4 proof + differential correspondence + model-free oracle",
 }
 
 NAN = float("nan")
+
+# families of findings of this check that were repaired in /repo (known_findings.json: fixed); the oracle rules stay as
+# regression guards and report a revert of the repair under the same family
+FIXED_F56 = "drdef-add-uf-reds-none-entry-ignores-defaults"  # fix: commit 8b1ec50
+FIXED_F57 = "form-extreme-abscissa-of-another-event-when-governing-event-has-none"  # fix: commit 19ddbb5
+FIXED_F58 = "form-extreme-differing-rows-add-maxmin-event-keyerror"  # fix: commit 40cd789
 
 
 # ---------------------------------------------------------------------------------------
@@ -301,6 +301,10 @@ def gen_hist(rng, cols):
             mincase = ["m%d.r%d" % (c, i) for i in range(r)]
         calls.append({"ext": ext, "ext_x": ext_x, "maxcase": maxcase, "mincase": mincase,
                       "casenum": None if mode == "none" else js[c]})
+    if n > 1 and rng.random() < 0.2:
+        # abscissae given by some calls only (since fix 19ddbb5 a call without contributes NaN abscissae)
+        for c in calls:
+            c["ext_x"] = [[float(rng.randint(0, 9)) for _ in range(cols)] for _ in range(r)] if rng.random() < 0.6 else None
     return {"kind": "ext%d" % cols, "rows": r, "n": n, "calls": calls}
 
 
@@ -373,14 +377,18 @@ def hist_impl_replies(h):
     except Exception as e:  # the model never refuses a well-formed history
         return ["exception:" + type(e).__name__] * len(hist_requests(h))
     hasx = h["calls"][0]["ext_x"] is not None
+    mixed = spec_mixedx(h)
     out = []
     for ext, ext_x, mxc, mnc in snaps:
         for i in range(h["rows"]):
-            if hasx != (ext_x is not None):
+            if not mixed and hasx != (ext_x is not None):
                 out.append("ext_x-presence-differs")
                 continue
-            x0 = ftok(ext_x[i, 0]) if hasx else "nan"
-            x1 = ftok(ext_x[i, 1]) if hasx else "nan"
+            if ext_x is not None and ext_x.shape != ext.shape:
+                out.append("ext_x-shape-%s-differs-from-ext-%s" % (ext_x.shape, ext.shape))
+                continue
+            x0 = ftok(ext_x[i, 0]) if ext_x is not None else "nan"
+            x1 = ftok(ext_x[i, 1]) if ext_x is not None else "nan"
             out.append("%s %s %s %s %s %s" % (ftok(ext[i, 0]), x0, mxc[i], ftok(ext[i, 1]), x1, mnc[i]))
     if h["calls"][0]["casenum"] is not None:
         for i in range(h["rows"]):
@@ -1728,11 +1736,12 @@ def gen_heap_hist(rng):
     h = gen_hist(rng, 2)
     for c in h["calls"]:
         c["casenum"] = None
-    if h["rows"] == 1 and rng.random() < 0.25:
-        # abscissae given by some calls only (the whole-array copy / NaN branches of _put_time; one row, because in
-        # these branches a copy triggered by one row changes the other rows as well)
+    if rng.random() < 0.25:
+        # abscissae given by some calls only (the new-NaN-array / NaN branches of _put_time)
         for c in h["calls"]:
-            c["ext_x"] = [[float(rng.randint(0, 9)), float(rng.randint(0, 9))]] if rng.random() < 0.6 else None
+            c["ext_x"] = [[float(rng.randint(0, 9)), float(rng.randint(0, 9))] for _ in range(h["rows"])] \
+                if rng.random() < 0.6 else None
+    if spec_mixedx(h):
         h["mixedx"] = True
     return h
 
@@ -2085,8 +2094,7 @@ def _lab_acc_reply(e):
 
 
 def _lab_step_kinds(parts, as_coded=True):
-    """what `_check_row_compatibility` sees at every step: the overlap pattern of (labels so far, next labels);
-    `as_coded`: stop where the code raises KeyError for an event without per-case columns (the oracle does not)"""
+    """what `_check_row_compatibility` sees at every step: the overlap pattern of (labels so far, next labels)"""
     kinds = []
     acc = None
     for _, _, _, c in parts:
@@ -2111,9 +2119,8 @@ def _lab_step_kinds(parts, as_coded=True):
             kinds.append("superset-same-order" if [x for x in l2 if x in a] == acc else "superset")
         else:
             kinds.append("overlap")
-        if as_coded and not hasattr(c, "mx"):
-            kinds.append("keyerror-no-mx")
-            break
+        if not hasattr(c, "mx"):
+            kinds.append("add-maxmin-event-expanded")  # no per-case members: accepted since fix 40cd789 (F58)
         acc = _ref_merge(acc, l2)
     return kinds
 
@@ -2199,14 +2206,14 @@ def labform_compare(spec, reqs, want, got):
         else:
             _, exc, drm, dct, cases = w
             t = g.split()
-            if t and t[0] in ("value-error", "key-error"):
+            if t and t[0] == "value-error":
                 j = int(t[1])
                 m = dct[cases[j]]
                 cur = m["extreme"] if "extreme" in m else m
                 errs.append((j, list(cur.keys()).index(drm), t[0]))
     if exc is not None:
         model = min(errs)[2] if errs else "no exception"
-        impl = {"ValueError": "value-error", "KeyError": "key-error"}[exc]
+        impl = {"ValueError": "value-error"}.get(exc, exc)
         if model != impl:
             return {"what": "exception raised by form_extreme", "impl": exc, "model": model}
     return None
@@ -2309,7 +2316,7 @@ def oracle_ufdef(spec):
         only_none_entries = spec["given"] is not None and all(
             a == b for a, b, gv in zip(got, want, g) if gv is not None) and all(
             a == 1 for a, gv in zip(got, g) if gv is None)
-        fam = "drdef-add-uf-reds-none-entry-ignores-defaults" if only_none_entries else "drdef-add-uf-reds-wrong"
+        fam = FIXED_F56 if only_none_entries else "drdef-add-uf-reds-wrong"
         fails.append((fam, "DR_Def.add(uf_reds=%r) with defaults['uf_reds'] = %r stores %r; documented: None entries are "
                       "reset to the corresponding entry of defaults (or 1 if that is None too): %r"
                       % (spec["given"], spec["defaults"], got, want), spec, list(got), list(want)))
@@ -2843,7 +2850,7 @@ def correspondence(ctx):
         "branch:ufdef-no-defaults",
         "branch:labels-identical", "branch:labels-permuted", "branch:labels-subset", "branch:labels-superset",
         "branch:labels-superset-same-order", "branch:labels-disjoint", "branch:labels-overlap",
-        "branch:labels-identical-repeated", "branch:labels-repeated-refused", "branch:labels-keyerror-no-mx",
+        "branch:labels-identical-repeated", "branch:labels-repeated-refused", "branch:labels-add-maxmin-event-expanded",
         "branch:labels-abscissa-some-events", "branch:labels-abscissa-some-events-with-merge",
         "branch:labels-lower-level-envelope", "branch:labels-category-missing-in-some-event", "branch:labels-case-order",
     ])
@@ -2918,6 +2925,9 @@ def oracle_hist(h):
                  repr(e), "updated extrema")]
     ext, ext_x, mxc, mnc = snaps[-1]
     calls = h["calls"]
+    if ext_x is not None and ext_x.shape != ext.shape:
+        return [("extrema-%d-column-abscissa-table-shape" % cols, "ext_x has shape %s, ext has %s" % (ext_x.shape, ext.shape), h,
+                 list(ext_x.shape), list(ext.shape))]
     nanfirst = all(v is None for row in calls[0]["ext"] for v in row)
     tag = ("-nan-first-case" if nanfirst else "")
     for i in range(h["rows"]):
@@ -2951,16 +2961,23 @@ def oracle_hist(h):
                 fails.append(("extrema-%d-column-%s-label-not-attaining%s" % (cols, which, tag),
                               "row %d: %s label %r names no case attaining %r (labels %r, values %r)" % (
                                   i, which, lab, got, labs, vals), h, lab, [labs[k] for k in attain]))
-            elif spec_mixedx(h):
-                pass  # abscissae given by some calls only: outside the assumption under which ext_x is meaningful
-            elif calls[0]["ext_x"] is not None:
-                gx = float(ext_x[i, col])
-                if not any(labs[k] == lab and _same(xs[k], gx) for k in attain):
-                    fails.append(("extrema-%d-column-%s-abscissa-not-attaining%s" % (cols, which, tag),
-                                  "row %d: %s abscissa %r is not that of attaining case %r" % (i, which, gx, lab),
-                                  h, gx, [xs[k] for k in attain]))
-            elif ext_x is not None:
-                fails.append(("extrema-abscissa-invented", "ext_x appeared although no case supplied one", h, "array", None))
+            elif all(c["ext_x"] is None for c in calls):
+                if ext_x is not None:
+                    fails.append(("extrema-abscissa-invented", "ext_x appeared although no case supplied one", h, "array", None))
+            elif all(c["ext_x"] is not None for c in calls) and ext_x is None:
+                fails.append(("extrema-abscissa-lost", "ext_x is None although every case supplied one", h, None, "array"))
+            else:
+                # the abscissa is that of the governing case -- NaN when that case came without x-values
+                gx = NAN if ext_x is None else float(ext_x[i, col])
+                gov = [k for k in attain if labs[k] == lab]
+                if not any(_same(xs[k], gx) for k in gov):
+                    if all(calls[k]["ext_x"] is None for k in gov):
+                        fails.append((FIXED_F57, "cla.extrema row %d: the %s is governed by case %r, which came without x-values, but "
+                                      "the abscissa reported is %r (another case's)" % (i, which, lab, gx), h, gx, NAN))
+                    else:
+                        fails.append(("extrema-%d-column-%s-abscissa-not-attaining%s" % (cols, which, tag),
+                                      "row %d: %s abscissa %r is not that of attaining case %r" % (i, which, gx, lab),
+                                      h, gx, [xs[k] for k in gov]))
     # what was handed in is still what it was (no aliasing between the accumulator and its inputs)
     for n_in, (c, mm, mxc, mnc) in enumerate(cur.inputs):
         if not np.array_equal(mm.ext, arr(c["ext"]), equal_nan=True) or \
@@ -3780,7 +3797,7 @@ def oracle_labform(spec):
     if exc == "ValueError" and must_raise:
         return fails
     if exc == "KeyError":
-        fails.append(("form-extreme-differing-rows-add-maxmin-event-keyerror",
+        fails.append((FIXED_F58,
                       "form_extreme raises KeyError('mx') when an event made by add_maxmin lists other rows than the events "
                       "before it (_expand looks up mx / mn / mx_x / mn_x, which such an event does not have)", spec, exc,
                       "the envelope by label"))
@@ -3877,7 +3894,7 @@ def _lab_levels_check(spec, levels, d):
                     okx = any(_same(gx, NAN if c.ext_x is None else float(c.ext_x[r, col])) for c, r in gov)
                     if not okx:
                         if all(c.ext_x is None for c, r in gov):
-                            fails.append(("form-extreme-abscissa-of-another-event-when-governing-event-has-none",
+                            fails.append((FIXED_F57,
                                           "%s/%s row %r: the %s is governed by %r, which has no abscissae, but the envelope reports "
                                           "the abscissa %r (taken from another member: _put_time copies that member's whole ext_x "
                                           "when the envelope has none yet)" % (where, drm, lbl, which, lab, gx), spec, gx, NAN))
@@ -3908,7 +3925,7 @@ def _lab_order_check(spec, top):
     if spec["case_order"] is None and len(spec["members"]) > 1:
         top2, exc2 = build_labform(spec, order=list(range(len(spec["members"])))[::-1])
         if exc2 == "KeyError":
-            fails.append(("form-extreme-differing-rows-add-maxmin-event-keyerror",
+            fails.append((FIXED_F58,
                           "form_extreme raises KeyError('mx') when the same events are given in reverse order (an event made by "
                           "add_maxmin then comes after events that list other rows)", spec, exc2, "the envelope by label"))
         elif exc2 is not None:
